@@ -215,6 +215,9 @@ func (t *TLVTableReply) MarshalBinary() (data []byte, err error) {
 
 func (t *TLVTableReply) UnmarshalBinary(data []byte) error {
 	n := 0
+	if len(data) < 16 {
+		return errors.New("the []byte is too short to unmarshal a full TLVTableReply message")
+	}
 	t.MaxSpace = binary.BigEndian.Uint32(data[n:])
 	n += 4
 	t.MaxFields = binary.BigEndian.Uint16(data[n:])
@@ -250,6 +253,9 @@ func decodeVendorData(experimenterType uint32, data []byte) (msg util.Message, e
 		msg = new(BundleControl)
 	case Type_BundleAdd:
 		msg = new(BundleAdd)
+	}
+	if msg == nil {
+		return nil, errors.New("unsupported experimenter message type")
 	}
 	err = msg.UnmarshalBinary(data)
 	if err != nil {
